@@ -87,6 +87,7 @@ class H2Conn(Peer):
         self.highest_sid = 0
         self.frames_in: list[tuple] = []
         self.sent_settings_initial = False
+        self.unacked_settings: list = []
 
     # ------------------------------------------------------------ transport events
     def on_connect(self, tr):
@@ -117,17 +118,27 @@ class H2Conn(Peer):
         self.tr.send(data)
 
     def send_settings(self, d: dict):
-        old_iw = self.adv[S_INITIAL_WINDOW_SIZE]
-        for k, v in d.items():
-            self.adv[k] = v
+        """Our settings bind the client only once it has acknowledged them (RFC 9113 6.5.3): window / frame-size
+        accounting switches at the ACK; the concurrency limit is judged against what the client has *read*."""
         self.out(frame(SETTINGS, 0, 0, settings_payload(d)))
+        self.unacked_settings.append(dict(d))
         if S_MAX_CONCURRENT_STREAMS in d:
+            self.adv[S_MAX_CONCURRENT_STREAMS] = d[S_MAX_CONCURRENT_STREAMS]
             self.limit_history.append((self.sent_total, d[S_MAX_CONCURRENT_STREAMS]))
+
+    def _settings_acked(self):
+        if not self.unacked_settings:
+            self.violations.append("SETTINGS ACK without outstanding SETTINGS")
+            return
+        d = self.unacked_settings.pop(0)
         if S_INITIAL_WINDOW_SIZE in d:
-            delta = d[S_INITIAL_WINDOW_SIZE] - old_iw
+            delta = d[S_INITIAL_WINDOW_SIZE] - self.adv[S_INITIAL_WINDOW_SIZE]
+            self.adv[S_INITIAL_WINDOW_SIZE] = d[S_INITIAL_WINDOW_SIZE]
             for s in self.streams.values():
                 if not s.closed:
                     s.recv_window += delta
+        if S_MAX_FRAME_SIZE in d:
+            self.adv[S_MAX_FRAME_SIZE] = d[S_MAX_FRAME_SIZE]
 
     def effective_limit(self):
         """The concurrency limit the client is bound by: the most recent
@@ -188,13 +199,15 @@ class H2Conn(Peer):
 
     def _frame(self, ftype, flags, sid, payload):
         self.frames_in.append((ftype, flags, sid, len(payload)))
-        if n_over := (len(payload) > self.adv[S_MAX_FRAME_SIZE]):
-            self.violations.append(f"frame type {ftype} of {len(payload)} bytes exceeds MAX_FRAME_SIZE {self.adv[S_MAX_FRAME_SIZE]}")
+        mfs = max([self.adv[S_MAX_FRAME_SIZE]] + [d[S_MAX_FRAME_SIZE] for d in self.unacked_settings if S_MAX_FRAME_SIZE in d])
+        if len(payload) > mfs:
+            self.violations.append(f"frame type {ftype} of {len(payload)} bytes exceeds MAX_FRAME_SIZE {mfs}")
         if self.headers_in_progress is not None and ftype != CONTINUATION:
             self.violations.append("frame interleaved into a header block")
         if ftype == SETTINGS:
             if flags & FLAG_ACK:
                 self.settings_acks_from_client += 1
+                self._settings_acked()
                 return
             self.settings_frames_from_client += 1
             for i in range(0, len(payload) - 5, 6):
